@@ -348,10 +348,23 @@ func (e *Engine) registerModels() {
 	m["(*hash/fnv.sum64a).Sum64"] = func(in *Interp, fn *ssa.Function, a []Value) Value {
 		h := (*a[0].(Ptr).p).(*hashState)
 		site := ""
-		if n := len(in.stack); n >= 2 {
-			site = in.stack[n-2]
-			if n >= 3 {
-				site = in.stack[n-3] + "/" + site
+		for i := len(in.stack) - 1; i >= 0; i-- {
+			if in.stack[i] != "hash" && in.stack[i] != "lib.hash" {
+				site = in.stack[i]
+				break
+			}
+		}
+		if strings.HasSuffix(site, "jsonObject.hashCode") {
+			// the raw key bytes are hashed at the same site as the prefixed object preimage
+			pfx := []byte{0x00, 0x5D, 0x39, 0xA4, 0x18, 0x10, 0xEA, 0xD5}
+			isObj := len(h.pre) >= 8
+			for i := 0; isObj && i < 8; i++ {
+				if !h.pre[i].IsConst() || byte(h.pre[i].val) != pfx[i] {
+					isObj = false
+				}
+			}
+			if !isObj {
+				site += "#key"
 			}
 		}
 		return in.path.hashApply(append([]*Term(nil), h.pre...), site)
@@ -649,6 +662,15 @@ func (e *Engine) registerIntrinsicsFor(pp string) {
 			return in.tt.BV(64, uint64(int64(v)))
 		}
 		return a[1]
+	}
+	m[pp+".vAnd"] = func(in *Interp, fn *ssa.Function, a []Value) Value {
+		return in.tt.And(a[0].(*Term), a[1].(*Term))
+	}
+	m[pp+".vOr"] = func(in *Interp, fn *ssa.Function, a []Value) Value {
+		return in.tt.Or(a[0].(*Term), a[1].(*Term))
+	}
+	m[pp+".vIte"] = func(in *Interp, fn *ssa.Function, a []Value) Value {
+		return in.tt.Ite(a[0].(*Term), a[1].(*Term), a[2].(*Term))
 	}
 	m[pp+".vSymbolic"] = func(in *Interp, fn *ssa.Function, a []Value) Value {
 		return in.tt.T
